@@ -15,6 +15,7 @@ def code_distribution(k, p, nmax):
     pf = None if p is None else float(p)
     random.seed(0)
     s0 = GS.make("geometric", k, True, pf)
+    # a second live reservoir of the same class, still filling (consumes no draws): objects must not share state
     cur = {(): (s0, F(1))}
     out = {}
     for n in range(1, nmax + 1):
@@ -22,6 +23,8 @@ def code_distribution(k, p, nmax):
         for key, (st, w) in cur.items():
             def call(s, n=n):
                 x, y = GS.item(n)
+                decoy = GS.make("geometric", 50, True, pf)
+                decoy.update({"id": -n, "v": -1.0}, "decoy")
                 s.update(x, y)
                 return s
             for (pw, s2, script) in dist.enumerate_call(lambda st=st: copy.deepcopy(st), call, grid=GRID):
